@@ -232,12 +232,20 @@ def coq_eval(ctx, name, imports, defs, queries, timeout=1800):
     return vals
 
 
-def coq_eval_sharded(ctx, name, imports, case_terms, queries_of, shard=400, timeout=1800):
-    """case_terms: list of Coq terms; evaluated in shards in parallel.
+def coq_eval_sharded(ctx, name, imports, case_terms, queries_of, shard=400, timeout=1800, max_chars=800000):
+    """case_terms: list of Coq terms; evaluated in shards in parallel.  A shard holds at most `shard` cases and
+    at most `max_chars` characters of term text (large cases: fewer per coqc, bounded memory).
     queries_of(listname) -> list of query strings over the shard list `listname`.
     Returns list (per shard) of (offset, [values])."""
     import concurrent.futures as cf
-    shards = [(o, case_terms[o:o + shard]) for o in range(0, len(case_terms), shard)] or [(0, [])]
+    shards, cur, off, size = [], [], 0, 0
+    for i, t in enumerate(case_terms):
+        if cur and (len(cur) >= shard or size + len(t) > max_chars):
+            shards.append((off, cur))
+            cur, off, size = [], i, 0
+        cur.append(t)
+        size += len(t)
+    shards.append((off, cur))
 
     def one(arg):
         k, (off, terms) = arg
